@@ -57,6 +57,23 @@ def arm(on=True):
     HEART["t"] = time.time()
 
 
+def cap_density(lower, upper, m):
+    """the largest density <= m at which the cells of the box are still well resolved by doubles: cell width >= 2^6 ulp of the largest
+    bound in every coordinate.  (On a thin side far from the origin a finer grid is below the spacing of doubles: images of neighbouring
+    cells coincide - a limit of floating point that C07 explicitly allows for, not a property of the code.)"""
+    import math
+    mm = m
+    for l, h in zip(lower, upper):
+        big = max(abs(float(l)), abs(float(h)))
+        if big == 0:
+            continue
+        ulp = math.ulp(big)
+        side = float(h) - float(l)
+        while mm > 1 and side / 2.0 ** mm < 64 * ulp:
+            mm -= 1
+    return mm
+
+
 class Infra(Exception):
     """infrastructure failure: exit code 2, never a violation"""
 
